@@ -773,11 +773,11 @@ func round(x float64, prec int) float64 {
 			x = math.Ceil(intermed)
 		}
 	} else {
-		if x < 0 {
-			x = math.Ceil(intermed - 0.5)
-		} else {
-			x = math.Floor(intermed + 0.5)
-		}
+		// Not a tie: round to the nearest integer. math.Round
+		// is exact. (Adding 0.5 and truncating is not: the sum
+		// is rounded, which turned 0.49999999999999994 into 1
+		// and an odd integer above 2^52 into the next even one.)
+		x = math.Round(intermed)
 	}
 
 	if x == 0 {
